@@ -12,13 +12,17 @@
 package main
 
 import (
+	"bytes"
 	"context"
 	"encoding/binary"
 	"fmt"
+	"net"
 	"os"
+	"os/exec"
 	"runtime"
 	"runtime/debug"
 	"runtime/metrics"
+	"sort"
 	"strings"
 	"time"
 
@@ -30,6 +34,7 @@ import (
 	"github.com/TarsCloud/TarsGo/tars/util/current"
 	"github.com/TarsCloud/TarsGo/tars/util/rogger"
 
+	"verif/netlab"
 	rc "verif/refcodec"
 	"verif/resreg"
 	"verif/sch"
@@ -105,13 +110,15 @@ func bombs(tag int, thorough bool) map[string]func() []byte {
 		out["map-nest-"+name] = func() []byte {
 			return append(head(rc.TMap), repeat([]byte{0x00, 0x01, 0x0c, 0x18}, per(4), nil)...)
 		}
+		// nesting through the map KEY needs only 3 bytes per level
+		out["mapkey-nest-"+name] = func() []byte { return append(head(rc.TMap), repeat([]byte{0x00, 0x01, 0x08}, per(3), nil)...) }
 		out["mixed-nest-"+name] = func() []byte {
 			return append(head(rc.TStructBegin), repeat([]byte{0x09, 0x00, 0x01, 0x08, 0x00, 0x01, 0x0c, 0x1a}, per(8), nil)...)
 		}
 	}
 	if !thorough {
 		for k := range out {
-			if strings.HasSuffix(k, "1e6") || (strings.HasSuffix(k, "max") && !strings.HasPrefix(k, "struct-nest") && !strings.HasPrefix(k, "list-nest")) {
+			if strings.HasSuffix(k, "1e6") {
 				delete(out, k)
 			}
 		}
@@ -210,8 +217,9 @@ func genCases(seed int64, thorough bool, tis []*tinfo) []hcase {
 		}
 		isPacket := ti.e.Name == "requestf.RequestPacket" || ti.e.Name == "requestf.ResponsePacket" || strings.HasPrefix(ti.e.Name, "VT.Outer") || strings.HasPrefix(ti.e.Name, "VT.OnlyOptional")
 		if isPacket || thorough {
-			for name, mk := range bombs(free, thorough) {
-				mk := mk
+			bm := bombs(free, thorough)
+			for _, name := range sortedKeys(bm) {
+				mk := bm[name]
 				var prefix []byte
 				for _, f2 := range ti.s.Fields {
 					if f2.Tag < free {
@@ -415,6 +423,10 @@ func main() {
 	fmt.Sscanf(os.Getenv("VERIF_SEED"), "%d", &seed)
 	tis := loadTypes()
 	rogger.SetLevel(rogger.OFF)
+	if os.Getenv("C05_LIVE") != "" {
+		liveServerMain()
+		return
+	}
 	if vlib.IsBatchChild() {
 		vlib.LimitAddressSpace(12 << 30)
 		runtime.GOMAXPROCS(2)
@@ -486,5 +498,259 @@ func main() {
 		run.Violation(class, c.entry+":"+strings.SplitN(c.kind, "=", 2)[0]+":"+why, fmt.Sprintf("%s on %s (%d bytes) ended the process: %s (exit %d, cpu %v)", c.entry, c.what, len(in), why, o.Exit, o.CPU),
 			map[string]interface{}{"entry": c.entry, "mutation": c.kind, "what": c.what, "input_len": len(in), "input": hexClip(in), "exit": o.Exit, "stderr_tail": vlib.Tail(o.Stderr, 2500)})
 	})
+	livePhase(run, seed, thorough)
 	run.Finish()
+}
+
+// ---------- live phase: a real server process (TCP + UDP, real tars.Protocol) fed hostile packets ----------
+
+func liveServerMain() {
+	vlib.LimitAddressSpace(12 << 30)
+	p := tars.VerifNewApp().NewProtocol(nopDispatch{}, nil, true)
+	tconf := netlab.DefaultServerConf("tcp")
+	uconf := netlab.DefaultServerConf("udp")
+	if _, err := netlab.StartServer(p, tconf); err != nil {
+		fmt.Println("ERR", err)
+		os.Exit(3)
+	}
+	if _, err := netlab.StartServer(p, uconf); err != nil {
+		fmt.Println("ERR", err)
+		os.Exit(3)
+	}
+	fmt.Printf("READY %s %s\n", tconf.Address, uconf.Address)
+	buf := make([]byte, 16)
+	for {
+		if _, err := os.Stdin.Read(buf); err != nil {
+			os.Exit(0)
+		}
+	}
+}
+
+type liveItem struct {
+	Proto string `json:"proto"`
+	What  string `json:"what"`
+	data  []byte
+	Hex   string `json:"input"`
+	Len   int    `json:"input_len"`
+}
+
+func procCPUTicks(pid int) int64 {
+	b, err := os.ReadFile(fmt.Sprintf("/proc/%d/stat", pid))
+	if err != nil {
+		return -1
+	}
+	s := string(b)
+	if i := strings.LastIndex(s, ")"); i >= 0 {
+		f := strings.Fields(s[i+1:])
+		if len(f) > 13 {
+			var u, k int64
+			fmt.Sscan(f[11], &u)
+			fmt.Sscan(f[12], &k)
+			return u + k
+		}
+	}
+	return -1
+}
+
+func livePhase(run *vlib.Run, seed int64, thorough bool) {
+	cmd := exec.Command(os.Args[0])
+	cmd.Env = append(os.Environ(), "C05_LIVE=1")
+	stdin, _ := cmd.StdinPipe()
+	stdout, _ := cmd.StdoutPipe()
+	var stderr bytes.Buffer
+	cmd.Stderr = &stderr
+	if err := cmd.Start(); err != nil {
+		run.Inconclusive("cannot start live server: " + err.Error())
+		return
+	}
+	exited := make(chan struct{})
+	go func() { _ = cmd.Wait(); close(exited) }()
+	defer func() {
+		stdin.Close()
+		select {
+		case <-exited:
+		case <-time.After(3 * time.Second):
+			_ = cmd.Process.Kill()
+		}
+	}()
+	var tcpAddr, udpAddr string
+	if _, err := fmt.Fscanf(stdout, "READY %s %s\n", &tcpAddr, &udpAddr); err != nil {
+		run.Inconclusive("live server did not come up: " + err.Error() + " " + vlib.Tail(stderr.String(), 300))
+		return
+	}
+	alive := func() bool {
+		select {
+		case <-exited:
+			return false
+		default:
+			return true
+		}
+	}
+	pingID := int32(1000)
+	ping := func(proto string) error {
+		pingID++
+		req := (&netlab.Request{Version: 1, RequestID: pingID, Servant: "Verif.C05.Obj", Func: "tars_ping", Timeout: 3000}).Encode()
+		addr := tcpAddr
+		if proto == "udp" {
+			addr = udpAddr
+		}
+		c, err := net.DialTimeout(proto, addr, 3*time.Second)
+		if err != nil {
+			return err
+		}
+		defer c.Close()
+		if _, err := c.Write(req); err != nil {
+			return err
+		}
+		_ = c.SetReadDeadline(time.Now().Add(5 * time.Second))
+		var frame []byte
+		if proto == "udp" {
+			b := make([]byte, 65536)
+			n, err := c.Read(b)
+			if err != nil {
+				return err
+			}
+			frame = b[:n]
+		} else {
+			fr := &netlab.FrameReader{Conn: c}
+			f, err := fr.Next(5 * time.Second)
+			if err != nil {
+				return err
+			}
+			frame = f
+		}
+		rsp, err := netlab.ParseResponse(frame)
+		if err != nil {
+			return fmt.Errorf("ping answer undecodable: %v", err)
+		}
+		if rsp.RequestID != pingID || rsp.Ret != 0 {
+			return fmt.Errorf("ping answered with id %d ret %d", rsp.RequestID, rsp.Ret)
+		}
+		return nil
+	}
+	if err := ping("tcp"); err != nil {
+		run.Inconclusive("live server does not answer a ping before any hostile input: " + err.Error())
+		return
+	}
+	r := vlib.SeedRand(seed, "live")
+	var items []liveItem
+	add := func(proto, what string, d []byte) {
+		items = append(items, liveItem{Proto: proto, What: what, data: d, Hex: hexClip(d), Len: len(d)})
+	}
+	valid := (&netlab.Request{Version: 1, RequestID: 7, Servant: "Verif.C05.Obj", Func: "f", Buffer: []byte{1, 2, 3}, Timeout: 3000, Context: map[string]string{"a": "b"}}).Encode()
+	for _, proto := range []string{"tcp", "udp"} {
+		for _, d := range [][]byte{{}, {0}, {0, 0}, {0, 0, 0}, {0, 0, 0, 0}, {0, 0, 0, 1}, {0, 0, 0, 3}, {0, 0, 0, 4}, {0, 0, 0, 5, 0x10}, {0xff, 0xff, 0xff, 0xff}, {0x7f, 0xff, 0xff, 0xff}, {0x00, 0xa0, 0x00, 0x01}} {
+			if proto == "tcp" && len(d) == 0 {
+				continue
+			}
+			add(proto, fmt.Sprintf("raw bytes %x", d), d)
+		}
+		// request whose sBuffer is a LIST of length -1 / 2^31-1
+		for _, ln := range []int64{-1, 2147483647} {
+			var b []byte
+			b = rc.AppendInt(b, 1, 1)
+			b = rc.AppendInt(b, 0, 2)
+			b = rc.AppendInt(b, 0, 3)
+			b = rc.AppendInt(b, 9, 4)
+			b = rc.AppendString(b, []byte("o"), 5)
+			b = rc.AppendString(b, []byte("f"), 6)
+			b = rc.AppendHead(b, rc.TList, 7)
+			b = rc.AppendInt(b, ln, 0)
+			add(proto, fmt.Sprintf("request with sBuffer as LIST of length %d", ln), frame(b))
+		}
+		size := 60000
+		if proto == "tcp" {
+			size = maxPacket - 64
+		}
+		units := map[string][]byte{"struct": {0x0a}, "list": {0x00, 0x01, 0x09}, "map": {0x00, 0x01, 0x08}}
+		for _, name := range []string{"list", "map", "struct"} {
+			unit := units[name]
+			head := rc.AppendHead(nil, map[string]int{"struct": rc.TStructBegin, "list": rc.TList, "map": rc.TMap}[name], 0)
+			add(proto, fmt.Sprintf("request frame of %d bytes of nested %s heads in an unknown field", size, name), frame(append(head, repeat(unit, size/len(unit), nil)...)))
+		}
+		nr := 30
+		if thorough {
+			nr = 1500
+		}
+		for i := 0; i < nr; i++ {
+			d := append([]byte(nil), valid...)
+			switch i % 3 {
+			case 0: // random body behind a correct header
+				body := make([]byte, r.Intn(200))
+				r.Read(body)
+				d = frame(body)
+			case 1: // bit flips in a valid request
+				for k := 0; k < 1+r.Intn(4); k++ {
+					d[4+r.Intn(len(d)-4)] ^= byte(1 << uint(r.Intn(8)))
+				}
+			default: // header lies about the length
+				binary.BigEndian.PutUint32(d, uint32(r.Intn(2*len(d))))
+			}
+			add(proto, "mutated request", d)
+		}
+	}
+	pid := cmd.Process.Pid
+	for i, it := range items {
+		run.Eval(1)
+		run.Distinct("live|" + it.Proto + "|" + string(it.data[:min(len(it.data), 4096)]) + fmt.Sprint(len(it.data)))
+		addr := tcpAddr
+		if it.Proto == "udp" {
+			addr = udpAddr
+		}
+		c, err := net.DialTimeout(it.Proto, addr, 3*time.Second)
+		if err == nil {
+			_ = c.SetWriteDeadline(time.Now().Add(20 * time.Second))
+			_, _ = c.Write(it.data)
+			if it.Proto == "tcp" {
+				// give the server the chance to answer or close, then leave
+				_ = c.SetReadDeadline(time.Now().Add(150 * time.Millisecond))
+				_, _ = c.Read(make([]byte, 4096))
+			}
+			c.Close()
+		}
+		var perr error
+		for _, proto := range []string{"tcp", "udp"} {
+			if perr = ping(proto); perr != nil {
+				break
+			}
+		}
+		if perr != nil || !alive() {
+			why := "no longer answers tars_ping (" + fmt.Sprint(perr) + ")"
+			if !alive() {
+				why = "exited: " + firstFatal(stderr.String())
+			}
+			run.Violation("server-process-killed", it.Proto+":"+strings.SplitN(it.What, " of ", 2)[0], fmt.Sprintf("after %s packet #%d (%s, %d bytes) the server process %s", it.Proto, i, it.What, it.Len, why),
+				map[string]interface{}{"item": it, "stderr_tail": vlib.Tail(stderr.String(), 2500)})
+			return
+		}
+	}
+	// after the last hostile packet the server must be idle again: CPU consumed over one idle second
+	time.Sleep(300 * time.Millisecond)
+	t0 := procCPUTicks(pid)
+	time.Sleep(time.Second)
+	t1 := procCPUTicks(pid)
+	run.Set("live_packets_sent", len(items))
+	run.Set("live_server_idle_cpu_ticks_per_s", t1-t0)
+	if t0 >= 0 && t1-t0 > 60 { // > 0.6 CPU-seconds per second with no traffic
+		run.Violation("cpu-blowup", "live-server-spins", fmt.Sprintf("after the hostile packets the idle server burns %d clock ticks per second", t1-t0), map[string]interface{}{"items": len(items)})
+	}
+	run.Sample(map[string]interface{}{"phase": "live", "example": items[len(items)/2]})
+}
+
+func firstFatal(s string) string {
+	for _, l := range strings.Split(s, "\n") {
+		if strings.HasPrefix(l, "fatal error:") || strings.HasPrefix(l, "panic:") {
+			return l
+		}
+	}
+	return vlib.Tail(s, 200)
+}
+
+func sortedKeys(m map[string]func() []byte) []string {
+	ks := make([]string, 0, len(m))
+	for k := range m {
+		ks = append(ks, k)
+	}
+	sort.Strings(ks)
+	return ks
 }
